@@ -154,6 +154,12 @@ fn cmp_case(k: u32, a: u64, b: u64) -> Value {
             } else {
                 RT.with(|rt| ixfr_decision(rt, aa, bb))
             },
+            // the same request to a provider that has no diffs
+            "ixfrnodiffs": if aa.wrapping_sub(bb) == 0x8000_0000 {
+                "any".to_string()
+            } else {
+                RT.with(|rt| ixfr_decision_with(rt, aa, bb, false))
+            },
             "newserial": lib_new_cmp(aa, bb),
             "newts": lib_newts_cmp(aa, bb),
             "ref": ref_cmp(32, aa as u64, bb as u64),
@@ -479,7 +485,7 @@ fn sites_case() -> Value {
     json!({
         "cmp": {"serial": "Cmp", "timestamp": "Cmp", "newserial": "Cmp", "newts": "Cmp",
                 "soa": "Cmp", "rrsig": "Cmp", "sign": "ValidityPeriod", "diff": "NewerSerial",
-                "ixfr": "IxfrUpToDate"},
+                "ixfr": "IxfrUpToDate", "ixfrnodiffs": "IxfrUpToDate"},
         "add": {"serial": "Add", "newserial": "Add"},
         "window": {"cookie": "InWindow", "newrange": "InWindow", "range": "InWindow",
                    "tsrange": "InWindow", "newtsrange": "InWindow"},
